@@ -329,8 +329,16 @@ impl C09 {
                     ops.push(Op::SetDr(if r.chance(1, 2) { *ups.last().unwrap() } else { *r.pick(&ups) }));
                 }
                 let failed = if r.chance(1, 3) { if r.chance(1, 5) { r.range(20, 80) } else { r.range(1, 12) } } else { 0 };
-                for _ in 0..failed {
-                    ops.push(Op::Join(Txn::default()));
+                // abandoned join attempts inside a long unanswered walk over the join channels (async front-ends): the
+                // application gives up waiting at one of the first waits of some attempts, then keeps trying
+                let abandon = cfg.frontend != Frontend::Nb && r.chance(1, 4);
+                let failed = if abandon && cfg.region.is_fixed() && r.chance(1, 2) { r.range(70, 170) } else { failed };
+                for i in 0..failed {
+                    let mut t = Txn::default();
+                    if abandon && (i < 24 || r.chance(1, 10)) && r.chance(1, 5) {
+                        t.cancel_at = Some(*r.pick(&[0u16, 0, 1, 2, 3, 5]));
+                    }
+                    ops.push(Op::Join(t));
                 }
                 let mut t = Txn::default();
                 let ja = if r.chance(1, 3) { gen_ja(&mut r, cfg.region, true) } else { gen_ja_valid(&mut r, cfg.region) };
